@@ -145,8 +145,7 @@ def specs(opts, prop="C13"):
         sc = [(T, E) for T in ("i8", "u8") for E in (-8, -3, -1, 0, 1, 3, 8)] + [("i16", -4), ("u16", -8), ("i16", 3)]
     for (T, E) in sc:
         out.append(("scaled", T, E))
-    if prop == "C13":
-        out.append(("positive", 6, 12, -99, 99) if tier == "quick" else ("positive", 19, 26, -99, 99))
+    out.append(("positive", 6, 12, -99, 99) if tier == "quick" else ("positive", 19, 26, -99, 99))
     for (T, E, SG) in ([("i8", 12, "i16"), ("u8", 9, "i16"), ("i8", -12, "i16")] if tier == "quick" else
                        [(T, E, "i16") for T in ("i8", "u8") for E in (-16, -12, -5, 1, 5, 9, 12, 16)] + [("i8", 24, "i32"), ("u8", -24, "i32")]):
         out.append(("descale", T, E, SG))
@@ -242,6 +241,19 @@ def mk_positive(name, prop, LD, N, elo, ehi):
         after = env.out(path, "buf")
         before = env.a["buf"]
         ok = X.eq(ec, 0)
+        if prop == "C14":
+            # the text denotes  m * 10^s  with  m = floor(D / 10^j), s = e + j  for some 0 <= j < nd  (D = the digit
+            # string read as an integer): a truncation toward zero, less than one unit of the last printed digit
+            dg, nd, e = env.a["dg"], env.a["nd"], env.a["e"]
+            D = 0
+            for i in range(LD):
+                D = X.ite(nd > i, D * 10 + (dg[i] - 48), D)
+            valid, neg, m, s10 = parse_decimal(after, p_off, N)
+            trunc = False
+            for j in range(LD):
+                trunc = X.Or(trunc, X.And(X.eq(s10 - e, j), nd > j, m * 10 ** j <= D, D - m * 10 ** j < 10 ** j))
+            return [("well-formed-decimal", X.Implies(ok, valid)), ("no-sign-written", X.Implies(ok, X.Not(neg))),
+                    ("truncation-of-the-digits", X.Implies(ok, trunc))]
         cl = [("status-is-success-or-value_too_large", X.Or(ok, X.eq(ec, EVALUE_TOO_LARGE))),
               ("success-pointer-range", X.Implies(ok, X.And(p_off > 0, p_off <= n))),
               ("failure-pointer-is-last", X.Implies(X.Not(ok), X.eq(p_off, n)))]
@@ -260,7 +272,7 @@ def mk_positive(name, prop, LD, N, elo, ehi):
         for i in range(N):
             v["buf_%d" % i] = rngv.randint(0, 255)
         vecs.append(v)
-    return Kernel(name, args, "i32", body, mode="bv", W=48, pre=pre, claims=claims, unwind=N + LD + 8, max_paths=60000,
+    return Kernel(name, args, "i32", body, mode="bv", W=48 if LD <= 8 else 150, pre=pre, claims=claims, unwind=N + LD + 8, max_paths=60000,
                   vectors=lambda rng: vecs, timeout=60, desc="to_chars_positive(digits<=%d, 10^e e in [%d,%d], buffer 0..%d)" % (LD, elo, ehi, N),
                   tags={"family": "positive", "LD": LD})
 
@@ -304,6 +316,12 @@ def text_claims(b, L, ok, v, E, N):
     """parse  -?d+ | -?d*.d+ | -?d(.d+)?e-?d+  symbolically (fold over the N buffer positions) and compare the
     denoted decimal with the exact value v * 2^E: same sign, never above the true magnitude, less than one unit of the
     last printed digit below it"""
+    valid, neg, m, s10 = parse_decimal(b, L, N)
+    return value_claims(valid, neg, m, s10, ok, v, E)
+
+
+def parse_decimal(b, L, N):
+    """-> (well-formed, has a leading '-', significand digits read as an integer, decimal exponent of its last digit)"""
     neg = X.And(L > 0, X.eq(b[0], 45))
     m = 0          # significand digits read so far (integer)
     k = 0          # number of significand digits after the '.'
@@ -347,6 +365,10 @@ def text_claims(b, L, ok, v, E, N):
     valid = X.And(valid, nd > 0, X.Implies(seen_e, ned > 0))
     e10 = X.ite(eneg, -ev, ev)
     s10 = X.ite(seen_e, e10, 0) - k       # text = +-m * 10^s10
+    return valid, neg, m, s10
+
+
+def value_claims(valid, neg, m, s10, ok, v, E):
     mag = X.absv(v)
     # exact |value| = mag * 2^E.  Compare m*10^s10 with mag*2^E without fractions: ladder over s10 in [-24, 24]
     A = mag * (1 << E) if E >= 0 else mag           # |value| * 2^max(-E,0)
